@@ -341,6 +341,7 @@ func readSchedule(path string) (conf cConf, sched []string) {
 }
 
 func TestConcSched(t *testing.T) {
+	defer watchDriver("TestConcSched")() // a deadlock of the tables (a lock that is never released) stops all progress: reported as a hang
 	w := newTrace("conc_sched.ndjson")
 	defer w.Close()
 	var files []string
@@ -412,6 +413,7 @@ func randConcOp(rng *rand.Rand, lookOnly bool) cOp {
 }
 
 func TestConcFree(t *testing.T) {
+	defer watchDriver("TestConcFree")() // a deadlock of the tables (a lock that is never released) stops all progress: reported as a hang
 	w := newTrace("conc_free.ndjson")
 	defer w.Close()
 	nEx := envInt("VERIF_N", 60)
@@ -501,6 +503,7 @@ func TestConcFree(t *testing.T) {
 // direct FIB updates, strategy changes, lookups whose results are read, listings) for the race detector and the runtime
 // to judge: a data-race report, "concurrent map" fatal error, panic or deadlock is the observation.
 func TestConcHammer(t *testing.T) {
+	defer watchDriver("TestConcHammer")() // a deadlock of the tables (a lock that is never released) stops all progress: reported as a hang
 	w := newTrace("conc_hammer.ndjson")
 	defer w.Close()
 	nEx, nOps := envInt("VERIF_N", 6), envInt("VERIF_LEN", 1500)
